@@ -129,6 +129,15 @@ def cases(tier, seed):
                             "p": {"variant_prob": 0.0, "na": False, "waters": [0, 3], "no_variants": [], "minlen": 4,
                                   "maxlen": 7, "pool": ["ASP", "GLU", "HIS", "CYS", "TYR", "LYS", "ARG", "ASP", "GLU",
                                                         "ALA", "SER", "ASN", "GLN", "THR"]}})
+    # --assign-only on complete, fully protonated structures (pdb2pqr's own --pdb-output of a full run): every
+    # tautomer / protonation state the pipeline itself produces must be accepted back
+    na_ = 36 if tier == "quick" else 3000
+    for i in range(na_):
+        ff = common.FFS[i % 6]
+        out.append({"kind": "assignonly", "w": "synth", "seed": seed * 7019 + i, "ff": ff, "opts": [f"--ff={ff}"],
+                    "p": {"variant_prob": 0.3, "na": False, "waters": [0, 2], "minlen": 4, "maxlen": 7,
+                          "pool": ["HIS", "HIS", "ASP", "GLU", "CYS", "TYR", "LYS", "ARG", "SER", "THR", "ASN", "GLN",
+                                   "ALA", "GLY", "PRO", "TRP"]}})
     rng = random.Random(seed * 3 + 1)
     nat = NATURAL * (1 if tier == "quick" else 40)
     for i, name in enumerate(nat):
@@ -361,6 +370,40 @@ def run_mixedopts(spec, res):
         else:
             res.count("option_lattice_plain_also_fails")
             run_mixed(dict(spec, opts=[f"--ff={spec['ff']}"]), res)
+
+
+def run_assignonly(spec, res):
+    m = workload.materialise(spec)
+    rng = random.Random(spec["seed"] + 3)
+    first_opts = [f"--ff={spec['ff']}", "--pdb-output={dir}/full.pdb"] + rng.choice([[], [], ["--noopt"], ["--nodebump"]])
+    pre = pipeline.run(m["text"], first_opts, workname="c12", keep=True)
+    try:
+        if not pre.ok:
+            res.count("assign_only_first_run_failed")
+            return
+        full = (pre.dir / "full.pdb").read_text()
+    finally:
+        pre.cleanup()
+    ff2 = spec["ff"] if rng.random() < 0.7 else rng.choice(common.FFS)
+    opts = [f"--ff={ff2}", "--assign-only"]
+    r = execute(full, opts, sentinel=False)
+    res.count("executions")
+    res.count("assign_only_roundtrips")
+    his = sorted({ln[17:20] + ":" + "".join(sorted(x[12:16].strip() for x in full.splitlines() if x.startswith(("ATOM", "HETATM")) and
+                                                  x[17:27] == ln[17:27] and x[12:16].strip() in ("HD1", "HE2")))
+                  for ln in full.splitlines() if ln.startswith("ATOM") and ln[17:20] in ("HIS", "HID", "HIE", "HIP")})
+    res.nt("assignonly", spec["ff"], ff2, tuple(his))
+    res.cell("assignonly", ff2, tuple(his)[:2])
+    failed, exc_name = not r.ok, type(r.exc).__name__
+    msg = (str(r.exc) + " | " + " | ".join(mm for lv, _n, mm in r.log if lv >= 40))[:200]
+    check_after(res, r, False, "assignonly", {"ff": ff2, "seed": spec["seed"], "opts": opts})
+    if failed and ff2 == spec["ff"]:
+        res.violate(f"success/assign-only-rejects-own-complete-output/{ff2}", f"--assign-only on the --pdb-output of a "
+                    f"successful {first_opts} run fails: {exc_name}: {msg}", ff=ff2, first_opts=first_opts,
+                    seed=spec["seed"], histidines=his, residues=[t["resn"] for t in m["truth"]])
+    elif failed:
+        res.count("assign_only_other_ff_failed")
+        res.note(f"assign-only under {ff2} on a structure protonated under {spec['ff']} failed: {exc_name} {msg[:80]}")
 
 
 # ------------------------------------------------------------------------------ natural faults
@@ -727,6 +770,8 @@ def run_case(spec):
     k = spec["kind"]
     if k in ("cell", "nacell"):
         run_cell(spec, res)
+    elif k == "assignonly":
+        run_assignonly(spec, res)
     elif k == "mixedopts":
         run_mixedopts(spec, res)
     elif k == "mixed":
